@@ -3,7 +3,7 @@
    of its fused node types.  Built-in functions and arithmetic are delegated
    (they are specified under C02 / C05); everything C01 names is defined here. *)
 From Coq Require Import List ZArith Bool.
-From JM Require Import Base.Outcome Base.Bytes Base.Utf8 Num.Dec Json.Value
+From JM Require Import Base.Outcome Base.Bytes Base.Utf8 Num.Dec Json.Value Json.JsonText
   Spec.SpecSlice Spec.RefAst
   Model.Ast Model.Parser Model.NumberFns Model.Eval.
 Import ListNotations.
@@ -23,7 +23,12 @@ Fixpoint spec_equal (x y : value) : bool :=
   | VNull, VNull => true
   | VBool a, VBool b => Bool.eqb a b
   | VStr a, VStr b => beqb a b
-  | VNum _, VNum _ =>
+  | VNum xn, VNum yn =>
+    (* numbers by value; a JSON number that no decimal can hold is still equal to itself *)
+    if match xn, yn with
+       | NJson s, NJson t => beqb s t && match json_parse s with Some _ => true | None => false end
+       | _, _ => false
+       end then true else
     match to_decimal x, to_decimal y with Some a, Some b => dec_equal a b | _, _ => false end
   | VArr a, VArr b =>
     (fix go (a b : list value) : bool :=
@@ -216,6 +221,42 @@ Section RefEval.
     | RNeg x => do v <- ref_eval x cur vars; Ok (negate v)
     | RPos x => do v <- ref_eval x cur vars; Ok (if is_number v then v else VNull)
     | RCall f args =>
+      (* the variadic built-ins look at each argument as soon as it is evaluated:
+         not_null stops at the first non-null one, merge and zip check its type *)
+      if beqb f [110;111;116;95;110;117;108;108] then
+        (fix go (l : list rarg) : outcome value :=
+           match l with
+           | [] => Ok VNull
+           | AExpr x :: r => do v <- ref_eval x cur vars; if not_null v then Ok v else go r
+           | ARef _ :: _ => Err EInvalidType
+           end) args
+      else if beqb f [109;101;114;103;101] then
+        (fix go (l : list rarg) (acc : list (bytes * value)) : outcome value :=
+           match l with
+           | [] => Ok (VObj acc)
+           | AExpr x :: r =>
+             do v <- ref_eval x cur vars;
+             match v with
+             | VObj m => go r (fold_left (fun acc kv => assoc_set (fst kv) (snd kv) acc) m acc)
+             | _ => Err EInvalidType
+             end
+           | ARef _ :: _ => Err EInvalidType
+           end) args []
+      else if beqb f [122;105;112] then
+        do cols <- (fix go (l : list rarg) : outcome (list (list value)) :=
+                      match l with
+                      | [] => Ok []
+                      | AExpr x :: r =>
+                        do v <- ref_eval x cur vars;
+                        match v with
+                        | VArr c => do cs <- go r; Ok (c :: cs)
+                        | _ => Err EInvalidType
+                        end
+                      | ARef _ :: _ => Err EInvalidType
+                      end) args;
+        let count := fold_left (fun m c => Z.min m (Z.of_nat (length c))) cols 9223372036854775807 in
+        Ok (VArr (zip_rows (Z.to_nat count) 0 cols))
+      else
       do avs <- (fix go (l : list rarg) : outcome (list argv) :=
                    match l with
                    | [] => Ok []
